@@ -7,6 +7,7 @@ import (
 	"strings"
 
 	"github.com/relab/gorums"
+	"github.com/relab/gorums/cmd/protoc-gen-gorums/dev"
 
 	"verif/mc"
 	"verif/world"
@@ -85,6 +86,12 @@ func pnScenario(p pnParams) func() {
 				break
 			}
 			checkCounts(name, key, c.Err, targeted, p.extra)
+			if c.Err == nil {
+				_, isCustom := c.Resp.(*dev.MyResponse)
+				if isCustom != world.IsCustom(p.kind) {
+					fail("C17/return-type", p.kind, "%s: the call returned a %T", name, c.Resp)
+				}
+			}
 		case world.IsAsync(p.kind):
 			if !c.Returned || !c.Fut.Done() {
 				fail("C06/waits-for-skipped", key, "%s: the future is not done although all %d targeted nodes answered", name, targeted)
@@ -283,4 +290,76 @@ func init() {
 		Gen:  c06Instances,
 		Assumptions: []string{"'without waiting' is decided untimed: at quiescence, before any gate is opened or timer fired", "transport is the fakegrpc model with window 1 for the one-way family"},
 	})
+}
+
+// C17 (dynamic half): every generated call variant of the zorums service is executed once
+// against the puppet servers: the handler that runs is the one the descriptor names, it sees
+// the request payload (per-node converted where declared), and the caller gets the declared type.
+func init() {
+	register(&Check{ID: "C17",
+		Rule: "dynamic binding: each of the 27 generated zorums call variants the harness can drive is invoked on 2 nodes against puppet servers built from the (regenerated) stubs; the handler entered, the payload it receives and the static type of the result are compared with the method's declaration; an outcome is the instance",
+		Gen: func(tier string) []Instance {
+			kinds := []string{"GRPCCall", "QuorumCall", "QuorumCallPerNodeArg", "QuorumCallCustomReturnType", "QuorumCallCombo",
+				"QuorumCallAsync", "QuorumCallAsync2", "QuorumCallAsyncPerNodeArg", "QuorumCallAsyncCustomReturnType", "QuorumCallAsyncCombo",
+				"Correctable", "CorrectablePerNodeArg", "CorrectableCustomReturnType", "CorrectableCombo",
+				"CorrectableStream", "CorrectableStreamPerNodeArg", "CorrectableStreamCustomReturnType", "CorrectableStreamCombo",
+				"Multicast", "Multicast2", "MulticastPerNodeArg", "Unicast", "Unicast2"}
+			var out []Instance
+			for _, k := range kinds {
+				if k == "GRPCCall" || k == "Unicast" || k == "Unicast2" {
+					p := owParams{kind: k, state: "idle"}
+					if k == "GRPCCall" {
+						out = append(out, Instance{Name: "binding-dynamic/" + k, Bound: 0, Root: rpcBinding()})
+					} else {
+						out = append(out, Instance{Name: "binding-dynamic/" + k, Bound: 0, Root: owScenarioBinding(p)})
+					}
+					continue
+				}
+				p := pnParams{kind: k, n: 2}
+				out = append(out, Instance{Name: "binding-dynamic/" + k, Bound: 0, Root: pnScenario(p)})
+			}
+			return out
+		},
+		Assumptions: []string{"the harness is compiled against the stubs regenerated from the working tree's templates"},
+	})
+}
+
+func owScenarioBinding(p owParams) func() {
+	return func() {
+		w := world.New(world.Opts{N: 1})
+		if w.Cfg == nil {
+			return
+		}
+		c := w.NewCall(p.kind)
+		c.Node = 1
+		w.Start(c)
+		mc.Quiesce()
+		ev := w.EventsOf("enter", 1)
+		if len(ev) != 1 || ev[0].Method != p.kind || ev[0].Payload != c.Req.Value {
+			fail("C17/method-binding", p.kind, "binding-dynamic/%s: handler events %v", p.kind, ev)
+		}
+		mc.Outcome("ok")
+	}
+}
+
+func rpcBinding() func() {
+	return func() {
+		w := world.New(world.Opts{N: 1})
+		if w.Cfg == nil {
+			return
+		}
+		c := w.NewCall("GRPCCall")
+		c.Node = 1
+		w.Start(c)
+		mc.Quiesce()
+		ev := w.EventsOf("enter", 1)
+		if len(ev) != 1 || ev[0].Method != "GRPCCall" || ev[0].Payload != c.Req.Value {
+			fail("C17/method-binding", "GRPCCall", "binding-dynamic/GRPCCall: handler events %v", ev)
+		}
+		r, _ := c.Resp.(*dev.Response)
+		if !c.Returned || c.Err != nil || r.GetResult() != world.Stamp(c.Tok, 1, 0, 0) {
+			fail("C17/return-value", "GRPCCall", "binding-dynamic/GRPCCall: returned %v, %v", c.Resp, c.Err)
+		}
+		mc.Outcome("ok")
+	}
 }
